@@ -33,6 +33,7 @@ func (s *Server) favIconFunc(w http.ResponseWriter, r *http.Request) {
 	b, err := fs.ReadFile(content, "static/favicon.ico")
 	if err != nil {
 		http.Error(w, err.Error(), http.StatusInternalServerError)
+		return
 	}
 	w.Header().Set("Content-Length", strconv.Itoa(len(b)))
 	_, _ = w.Write(b)
